@@ -13,6 +13,22 @@ from vf import cst, minimise
 from vf.gen import grammar as G, trivia as T
 
 
+def _gen_kw(pid):
+    """The generator switches the check itself runs with (open findings that exclude a construct by construction)."""
+    from vf import runner
+    q = runner.quarantine_for(pid)
+    return {"empty_let": not any(x.get("gen", {}).get("empty_let") is False for x in q), "merge_pairs": not any(x.get("gen", {}).get("merge_pairs") is False for x in q)}
+
+
+class _Kw(dict):
+    def __missing__(self, pid):
+        self[pid] = _gen_kw(pid)
+        return self[pid]
+
+
+GEN_KW = _Kw()
+
+
 def work(args):
     pid, lo, hi = args
     import importlib
@@ -21,7 +37,7 @@ def work(args):
     pair_tot = Counter(); pair_fail = Counter(); examples = {}; kinds = defaultdict(Counter)
     base_fail = {}; base_tot = 0; n = 0
     for s in range(lo, hi):
-        ast, base, broken = G.program(s, include_uri=cfg.include_uri)
+        ast, base, broken = G.program(s, include_uri=cfg.include_uri, **GEN_KW[pid])
         if not cst.env_ok(base):
             continue
         bt = cst.parse(base)
